@@ -16,6 +16,7 @@ class PDAObjectCreator:
         for variable in variables:
             self._inverse_stack_symbol[variable] = None
         self._taken_stack_values = {str(x.value) for x in variables}
+        self._given_variable_values = set()
 
     def get_symbol_from(self, symbol):
         """Get a symbol"""
@@ -41,6 +42,13 @@ class PDAObjectCreator:
                 while value in self._taken_stack_values:
                     value = "#TERM#" + value
                 self._taken_stack_values.add(value)
+            elif value in self._given_variable_values:
+                # Another variable prints the same way (0 and "0")
+                while value in self._taken_stack_values:
+                    value += "#"
+                self._taken_stack_values.add(value)
+            else:
+                self._given_variable_values.add(value)
             temp = pda.StackSymbol(value)
             self._inverse_stack_symbol[stack_symbol] = temp
             return temp
